@@ -148,9 +148,10 @@ class Interp:
 
     # ================================================================ entry
     def run(self, fn: Function, args: Optional[Dict[str, T]] = None,
-            self_cls: Optional[Class] = None) -> Result:
+            self_cls: Optional[Class] = None,
+            preset_attrs: Optional[Dict[Tuple[T, str], T]] = None) -> Result:
         self.events = []
-        self.attrs = {}
+        self.attrs = dict(preset_attrs or {})
         frame = self._make_frame(fn, args or {}, self_cls, depth=0)
         self.stack.append(fn.qualname)
         try:
